@@ -61,7 +61,7 @@ Definition state_eqb (m : mask) (a b : ostate) : bool :=
   (negb (m_called m) || (Bool.eqb (o_called a) (o_called b) && str_eqb (o_used a) (o_used b))).
 
 Definition run_case (c : pcase) : presult :=
-  parse (pf_of (c_ftab c)) (c_md c) (c_lower c) (c_specs c) (c_root c) (c_st0 c) (c_args c).
+  parse (pf_of (c_ftab c)) (c_md c) (c_lower c) true (c_specs c) (c_root c) (c_st0 c) (c_args c).
 
 Definition check_case (m : mask) (c : pcase) : bool :=
   let r := run_case c in
@@ -91,3 +91,20 @@ Definition model_view (c : pcase) :=
    | Err e => (Some (e_kind e, e_msg e, e_parsing e), [], [])
    | Ok (st, rem) => (None, rem, store st)
    end).
+
+(* ---- tokenizer correspondence (isOption through the VerifIsOption hook) ---- *)
+Record tcase := mkTCase { t_md : mode; t_s : str; t_pairs : list (str * list str); t_is : bool }.
+
+Definition pair_eqb (a b : str * list str) : bool :=
+  str_eqb (fst a) (fst b) && strs_eqb (snd a) (snd b).
+
+Definition check_tcase (c : tcase) : bool :=
+  let '(ps, is) := is_option (t_md c) (t_s c) in
+  Bool.eqb is (t_is c) && list_eqb pair_eqb (List.map (fun p => (p_name p, p_args p)) ps) (t_pairs c).
+
+Fixpoint tmismatches_from (i : nat) (cs : list tcase) : list nat :=
+  match cs with
+  | [] => []
+  | c :: cs' => if check_tcase c then tmismatches_from (S i) cs' else i :: tmismatches_from (S i) cs'
+  end.
+Definition tmismatches := tmismatches_from 0.
